@@ -215,6 +215,14 @@ def r15_ref_pattern(sig, body):
         new_hdr = 'for %s in ' % r + hdr[m.end():]
         body = body[:kw] + new_hdr + '{ let %s = *%s;' % (m.group(1), r) + body[ob + 1:]
         n += 1
+    # `if let Some(&x) = E {`  ->  `if let Some(__rN) = E { let x = *__rN;`
+    while True:
+        m = re.search(r'if\s+let\s+Some\(\s*&(\w+)\s*\)\s*=\s*([^{]+)\{', body)
+        if not m:
+            break
+        r = '__r%d' % n
+        body = body[:m.start()] + 'if let Some(%s) = %s{ let %s = *%s;' % (r, m.group(2), m.group(1), r) + body[m.end():]
+        n += 1
     return sig, body, n
 
 
